@@ -50,6 +50,16 @@ def _with_collect(draw, base):
     if not c.get("collect") and draw(st.sampled_from([False, False, False, True])):
         modes.append(draw(st.sampled_from(["run-mode: no-run", "unmatched-mode: keep", "return-mode: no-matches", "unmatched-mode: keep return-mode: no-matches"])))
     c["modes"] = modes
+    if not c.get("collect") and draw(st.integers(0, 7)) == 3:
+        # header-changing components (no model needed here): the relation between the three methods stays
+        nrec = len(c["table"]["records"])
+        c["prog"]["comps"].insert(0, ["->", ["==", ["f", "line_number", [], []], ["t", draw(st.integers(1, max(1, nrec - 1)))]], ["f", "reset_headers", [], []]])
+        c["prog"]["comps"].insert(1, ["f", "append", [], [["t", "seen"], ["f", "line_number", [], []]]])
+        if draw(st.booleans()):
+            # ... on lines that are all returned
+            c["prog"]["comps"] = c["prog"]["comps"][:2] + [["f", "yes", [], []]]
+            c["prog"]["mode"] = "AND"
+        c["headers_change"] = True
     # the constructor argument skip_blank_lines=False: blank records are then scanned and matched like any other
     c["keep_blank"] = draw(st.sampled_from([False, False, False, True]))
     return c
@@ -83,6 +93,8 @@ def run_case(case, sb):
     sbl = not case.get("keep_blank", False)
     if not sbl:
         labels.append("skip_blank_lines=False")
+    if case.get("headers_change"):
+        labels.append("reset_headers+append")
     A = real.run_path(text, method="collect", skip_blank_lines=sbl)
     B = real.run_next_with_snapshots(text, skip_blank_lines=sbl)
     C = real.run_path(text, method="fast_forward", skip_blank_lines=sbl)
